@@ -77,7 +77,7 @@ func TestC05(t *testing.T) {
 				outs = append(outs, em.Blk)
 			}
 			for _, b := range outs {
-				if rg, ok := bsvc.ReallyGood(b); ok && rg != (b.Cid.Dig == b.Data) {
+				if rg, ok := bsvc.ReallyGood(b); ok && b.Cid.Len > 0 && rg != (b.Cid.Dig == b.Data) { // a 0-byte digest matches any bytes
 					t.Fatalf("harness abstraction broken: block %s re-hash=%v", b, rg)
 				}
 				if b.Cid.Dig != b.Data {
